@@ -96,7 +96,7 @@ theorem ms_ts_time (sec nsec : Int) : marshalScalar .timestamp (.time sec nsec) 
 theorem us_ts_time (isNil : Bool) (d : Bytes) : unmarshalScalar .timestamp isNil d .time =
     if d = [] then .ok (.time zeroTimeSec 0) else .ok (.time (timeOfMillis (decBigInt d)).1 (timeOfMillis (decBigInt d)).2) := rfl
 theorem ms_date_time (sec nsec : Int) : marshalScalar .date (.time sec nsec) =
-    if timeIsZero sec nsec then .ok (some []) else .ok (some (encDateMillis (timeMillis sec nsec))) := rfl
+    if timeIsZero sec nsec then .ok (some []) else marshalDateMillis (timeMillis sec nsec) := rfl
 theorem us_date_time (isNil : Bool) (d : Bytes) : unmarshalScalar .date isNil d .time =
     if d = [] then .ok (.time zeroTimeSec 0) else if d.length < 4 then .err
     else .ok (.time (((beNat (d.take 4) : Int) - 2147483648) * 86400) 0) := rfl
@@ -113,7 +113,7 @@ theorem us_arr16 (t : CqlTy) (ht : isUuid t) (isNil : Bool) (d : Bytes) : unmars
   have h1 : (GoTy.arr16 == GoTy.time) = false := rfl
   rcases ht with rfl | rfl <;> (unfold unmarshalScalar; simp [h1])
 theorem ms_inet (b : Bytes) : marshalScalar .inet (.ip b) =
-    (match ipTo4 b with | some v4 => .ok (some v4) | none => .ok (ipTo16 b)) := rfl
+    (match ipTo4 b with | some v4 => .ok (some v4) | none => if b = [] then .ok none else optM (ipTo16 b)) := rfl
 theorem us_inet (isNil : Bool) (d : Bytes) : unmarshalScalar .inet isNil d .ip =
     if d.length ≠ 4 ∧ d.length ≠ 16 then .err else (match ipTo4 d with | some v4 => .ok (.ip v4) | none => .ok (.ip d)) := rfl
 
@@ -313,17 +313,18 @@ theorem srt_date_time (sec : Int) (hmid : sec % 86400 = 0)
     have := ok_inj h; subst this
     simp [timeIsZero] at hz
     simp [dataBytes, hz]
-  · have := ok_inj h; subst this
-    have hex : exactMillis sec 0 = sec * 1000 := by simp [exactMillis]
+  · have hex : exactMillis sec 0 = sec * 1000 := by simp [exactMillis]
     have h2 : fitsS 8 (exactMillis sec 0) = true := by rw [hex]; exact h1
     have hday : daysSinceEpoch (sec * 1000) = sec / 86400 := by rw [daysSinceEpoch_floor]; omega
+    rw [timeMillis_exact sec 0 h1 h2, hex, marshalDateMillis, hday, if_pos hrange] at h
+    have := ok_inj h; subst this
     simp [fitsU, leB_iff, ltB_iff] at hrange
     have hv : ((beNat (encInt (toS 32 (sec / 86400 + 2147483648))) : Int) - 2147483648) * 86400 = sec := by
       rw [beNat_encInt]
       simp [toS]; omega
     have ht : (encInt (toS 32 (sec / 86400 + 2147483648))).take 4 = encInt (toS 32 (sec / 86400 + 2147483648)) := rfl
     have hl : ¬ (encInt (toS 32 (sec / 86400 + 2147483648))).length < 4 := by simp [encInt_length]
-    simp only [dataBytes, Option.getD, timeMillis_exact sec 0 h1 h2, hex, encDateMillis, hday,
+    simp only [dataBytes, Option.getD, encDateMillis, hday,
       if_neg (encInt_ne_nil _), if_neg hl, ht, hv]
 
 /-! ## uuid / timeuuid, inet -/
@@ -355,7 +356,9 @@ theorem srt_inet (b : Bytes) (hb : b.length = 4 ∨ (b.length = 16 ∧ ipTo4 b =
     have := ok_inj h; subst this
     simp [dataBytes, h4, h4']
   · have h16' : ipTo16 b = some b := by simp [ipTo16, h16]
+    have hne : b ≠ [] := by intro h0; subst h0; simp at h16
     rw [hn, h16'] at h
+    simp only [if_neg hne, optM] at h
     have := ok_inj h; subst this
     simp [dataBytes, h16, hn]
 
